@@ -218,6 +218,9 @@ def check_collapse(rec, ds, case, reference=None, collapser_name=None):
     custom = None
     if collapser_name == "max":
         custom = {"max": lambda m, a: np.nanmax(m, axis=a)}
+    elif collapser_name == "mean=median":
+        # a user function under a default name replaces that default - for this call only
+        custom = {"mean": lambda m, a: np.nanmedian(m, axis=a)}
     sub = dict(case, reference=reference, collapser=collapser_name)
     try:
         with warnings.catch_warnings():
@@ -277,8 +280,24 @@ def check_collapse(rec, ds, case, reference=None, collapser_name=None):
         scale = float(np.nanmax(np.abs(x))) if np.isfinite(x).any() else 1.0
         tol = 64 * max(2, pairs.shape[1]) * 2.3e-16 * (scale + 1.0)
         checks = [("mean", mean, tol), ("std", std, tol), ("number", num, 0)]
-        if custom:
+        if collapser_name == "max":
             checks.append(("max", mx, 0))
+        elif collapser_name == "mean=median":
+            med = np.full((nref,) + tail, np.nan, dtype=LD)
+            for j in range(nref):
+                rows = np.asarray(x[partners[j]], dtype=float)
+                with warnings.catch_warnings():
+                    warnings.simplefilter("ignore")
+                    med[j] = np.nanmedian(rows, axis=0) if rows.size else np.nan
+            checks[0] = ("mean", med, tol)
+        # no statistic other than the requested ones may appear (e.g. left over from an earlier call)
+        allowed = {"%s_%s" % (v, fn) for fn, _, _ in checks}
+        stray = [str(n) for n in col.variables if str(n).startswith(v + "_") and str(n) not in allowed
+                 and str(n)[len(v) + 1:] in ("max", "min", "median", "sum", "mean", "std", "number")]
+        if stray:
+            rec.violation("collapse-wrong", sub, {"why": "unrequested statistic in the result",
+                                                  "vars": stray[:4]})
+            return
         for fn, w, t in checks:
             name = "%s_%s" % (v, fn)
             if name not in col.variables:
@@ -354,7 +373,7 @@ def real_result(rng):
     from vt.props import c04
     g = {"cls": rng.choice(["threshold", "dup", "random"]), "seed": rng.randrange(2 ** 31),
          "r_km": rng.choice([5.0, 50.0]), "mi_ns": rng.choice([60, 300]) * M.SEC, "tick_ns": M.SEC,
-         "region": "mid", "n1": rng.choice([5, 12, 40]), "n2": rng.choice([5, 40, 150])}
+         "region": "mid", "n1": rng.choice([5, 12, 40, 220]), "n2": rng.choice([5, 40, 150, 260])}
     p, s = M.gen_case(g)
     names = rng.choice([["primary", "secondary"], ["MHS", "AVHRR"]])
     np.random.seed(g["seed"] % 1000)
@@ -372,8 +391,9 @@ def run_case(rec, rng, spec):
     check_expand(rec, ds, spec)
     A, B = spec["names"]
     for ref in (None, A, B):
+        r = rng.random()
         check_collapse(rec, ds, spec, reference=ref,
-                       collapser_name="max" if rng.random() < 0.3 else None)
+                       collapser_name="max" if r < 0.25 else "mean=median" if r < 0.45 else None)
     pairs = ds["Collocations/pairs"].values
     multi = np.unique(pairs[0]).size < pairs.shape[1]
     if multi and spec["shuffle"]:
@@ -396,7 +416,7 @@ def run_shard(spec, rec):
                          {"kind": "concat", "specs": specs, "seed": cs["seed"]})
             if i % 3 == 0:
                 parts = []
-                for _ in range(rng.choice([1, 2, 3])):
+                for _ in range(rng.choice([1, 2, 3, 4])):
                     g, res = real_result(rng)
                     if res is None:
                         continue
